@@ -525,6 +525,11 @@ class SMTP(basic.LineOnlyReceiver, policies.TimeoutMixin):
                 message.connectionLost()
             self.mode = COMMAND
             del self.__messages
+            self.sendCode(500, b"Line too long")
+            # The rest of the message body is still on its way; it must not
+            # be interpreted as commands.
+            self.transport.loseConnection()
+            return
         self.sendCode(500, b"Line too long")
 
     def do_UNKNOWN(self, rest):
